@@ -6,9 +6,9 @@
 (* every compute, with a freshly built object.                             *)
 (***************************************************************************)
 EXTENDS Integers, Sequences, TLC, Json
-CONSTANTS MCVariant, Depth, NDrivers, Emit
+CONSTANTS MCVariant, Depth, NDrivers, NPrms, Emit
 VARIABLES driver, prm, results, cache, last, hist
-INSTANCE StockObject WITH Drivers <- 1..NDrivers, Prms <- {1, 2}, Variant <- MCVariant
+INSTANCE StockObject WITH Drivers <- 1..NDrivers, Prms <- 1..NPrms, Variant <- MCVariant
 vars == <<driver, prm, results, cache, last, hist>>
 
 MCInit == Init /\ driver = 1 /\ hist = <<>>
